@@ -49,17 +49,19 @@ var c08Sets = []c08Set{
 	}, []c08Call{
 		{"exec-normal", false, 0, 0, 10, 0}, {"exec-normal-i1", false, 0, 1, 10, 0}, {"exec-complete", false, 1, 0, 10, 0}, {"exec-selfretract", false, 3, 0, 10, 0},
 		{"exec-cancel@2", false, 0, 0, 10, 2}, {"exec-cancel@5", false, 3, 0, 10, 5}, {"exec-limit", false, 0, 0, 1, 0},
+		{"exec-selfretract-then-limit", false, 3, 0, 1, 0}, {"exec-selfretract-then-cancel@12", false, 3, 0, 10, 12},
 		{"fetch-k0", true, 0, 0, 0, 0}, {"fetch-k3", true, 3, 0, 0, 0}, {"fetch-k1-i1", true, 1, 1, 0, 0},
 	}},
 	{"actionerror+limit+retractother", func() []*grl.Rule {
 		return []*grl.Rule{
 			grl.R("inc", nil, "F.I < 2", "F.I = F.I + 1"),
-			grl.R("bad", grl.Sal(10), "F.K == 2 && F.I == 1", "F.I2 = 5", "F.P.V = 1"),
-			grl.R("kill", grl.Sal(7), "F.K == 4 && F.I2 == 0", `Retract("inc")`, "F.I2 = 1"),
+			grl.R("bad", grl.Sal(10), "F.K == 2 && F.I == 1 || F.K == 5 && F.I2 == 1", "F.I2 = 5", "F.P.V = 1"),
+			grl.R("kill", grl.Sal(7), "F.K >= 4 && F.I2 == 0", `Retract("inc")`, "F.I2 = 1"),
 		}
 	}, []c08Call{
 		{"exec-normal", false, 0, 0, 10, 0}, {"exec-actionerror", false, 2, 0, 10, 0}, {"exec-retractother", false, 4, 0, 10, 0},
 		{"exec-limit", false, 0, 0, 1, 0}, {"exec-cancel@3", false, 0, 0, 10, 3},
+		{"exec-retractother-then-actionerror", false, 5, 0, 10, 0}, {"exec-retractother-then-limit", false, 4, 0, 1, 0}, {"exec-retractother-then-cancel@12", false, 4, 0, 10, 12},
 		{"fetch-k0", true, 0, 0, 0, 0}, {"fetch-k4", true, 4, 0, 0, 0}, {"fetch-k2-i1", true, 2, 1, 0, 0},
 	}},
 	{"forget+memo", func() []*grl.Rule {
